@@ -27,7 +27,13 @@ MoreWages(o)  == IF G(o.B, "1040.24") >= G(o.A, "1040.24") THEN "" ELSE "more wa
 MoreDeduct(o) == IF G(o.B, "1040.24") <= G(o.A, "1040.24") THEN "" ELSE "a larger deductible expense raised total tax (line 24)"
 MoreWithheld(o) == IF Net(o.B) = Net(o.A) + o.delta THEN "" ELSE "an extra amount withheld did not move refund-minus-owed by the same amount"
 
+(* the NC return: overpayment (line 28) minus tax due (line 26a), before penalties, interest and contributions; the amounts withheld of both *)
+(* returns of the pair are whole dollars, so the whole-dollar rounding of the NC lines cannot blur the step                                  *)
+NetNC(S) == G(S, "nc_d-400.28") - G(S, "nc_d-400.26a")
+MoreWithheldNC(o) == IF NetNC(o.B) = NetNC(o.A) + o.delta THEN "" ELSE "an extra amount of N.C. tax withheld did not move the N.C. overpayment-minus-tax-due by the same amount"
+
 Judge(o) == CASE o.kind = "renumber" -> Renumber(o)
+              [] o.kind = "nc-withheld" -> MoreWithheldNC(o)
               [] o.kind = "wages"    -> MoreWages(o)
               [] o.kind = "deduct"   -> MoreDeduct(o)
               [] o.kind = "withheld" -> MoreWithheld(o)
